@@ -83,12 +83,18 @@ def run(chk, prog):
         if is_t(t, "is"):
             return conc(t[1]) and ev_int(t[1], env) is t[2][1]
         if is_t(t, "cmp") and t[1] == "==":
-            return conc(t[2]) and ev_int(t[2], env) == ev_int(t[3], env)
+            return conc(t[2]) and (conc(t[3]) or t[3] not in env) and ev_int(t[2], env) == ev_int(t[3], env)
         if is_t(t, "bool"):
             vs = [test(x, env, concrete) for x in t[2]]
             return all(vs) if t[1] == "and" else any(vs)
         if t == C(True):
             return True
+        if is_t(t, "isinst") and t[2] == "bool":
+            return conc(t[1])  # `case bool(x)` / isinstance(x, bool): exactly the concrete Python flags
+        if is_t(t, "un") and t[1] == "not":
+            return not test(t[2], env, concrete)
+        if t in env:
+            return conc(t) and bool(env[t])  # truthiness of a flag: only meaningful (and only reached in correct code) for a concrete one
         raise Unrecognised(show(t)[:80])
 
     for meth, spec in (("__or__", lambda a, b: a or b), ("__xor__", lambda a, b: a != b)):
